@@ -2,10 +2,9 @@
       to hazard cells ([rds_st_slot]: justified by the view; [rds_st_slot_protect]: the cell of the Guard exists, from the
       C02 invariant) and the library programs around them: link_guards, hp_alloc, hp_extend, hp_galloc, clear_slots,
       free_thread_data (detach).
-      NOT DONE (out of time): the client operations [run_op] (rules for "op"/"ret" events, "_att", "_own"), whole
-      threads, [cfg_ok] of the initial configuration with [dsafe_pair] + [DhpMainB.spec_thread], hence
-      "TPropG (Conc.trace conf) for every reachable conf, given flbad = false and cell_disc"; and the trace-level
-      derivation of [guard_cell_exclusive] (DhpLiveGcE) from [TPropG], [cell_disc] and [K_good] (DhpLiveGcB). *)
+      The client operations [run_op], whole threads and the initial configuration are in DhpLiveGxA ([dhp_TPropG]); the
+      trace-level derivation of [guard_cell_exclusive] (DhpLiveGcE) from [TPropG], [cell_disc] and [K_good] is in DhpLiveGxB;
+      [cell_disc] itself is proved in DhpLiveGxE .. GxP. *)
 From Coq Require Import ZArith NArith List String Bool Lia PeanoNat.
 From LV Require Import Base.Conc Base.Events Model.DhpLang Model.Dhp Proofs.DhpBase Proofs.DhpHist
   Proofs.DhpLangProofs Proofs.DhpInvA Proofs.DhpMainB Proofs.DhpProofsC02 Proofs.DhpLiveA Proofs.DhpLiveB
